@@ -6,6 +6,7 @@ import z3
 import g1
 
 PROPERTY = 'C06'
+THOROUGH_EXTRA = 100
 BIG = 60000
 
 
@@ -82,7 +83,7 @@ def subharnesses(tier):
 
 
 def budget(tier, name):
-    return 400.0 if tier == 'quick' else 1500.0
+    return 400.0 if tier == 'quick' else 600.0
 
 
 def harness(S, spec):
